@@ -155,6 +155,31 @@ theorem eig_shift_matrix [DecidableEq α] {n : ℕ} (nmodes : Option ℕ) (sigma
   · unfold arpackCall; by_cases h0 : sigma.getD 0 = 0 <;> simp [h0]
   · rw [← hsh]; exact hS.solve_eq V
 
+/-! ## histories on one module -/
+
+/-- history independence of the dispatch (as repaired): on a module that has seen ANY earlier matrices (any state `st`), the
+library routine of every response is the one determined by the CURRENT matrices (and the user's flag, if given) -/
+theorem eig_history_dispatch (user : Option Bool) (st : HistState) (steps : List (Bool × Option Bool × Bool)) :
+    (historyRun user st steps).map Prod.fst =
+      steps.map (fun s => dispatch s.2.2 (isHermitian user s.1 s.2.1)) := by
+  induction steps generalizing st with
+  | nil => rfl
+  | cons s rest ih =>
+    obtain ⟨a, b, sp⟩ := s
+    simp only [historyRun, List.map_cons, ih]
+    congr 1
+
+/-- when the detected Hermitian flag differs from the one of the previous response, the sparse path chooses a NEW
+shift-invert solver (the cached `Ainv` was chosen for another class of matrix) -/
+theorem eig_history_new_solver (st : HistState) (Aherm : Bool) (Bherm : Option Bool)
+    (hchg : st.herm ≠ some (Aherm && Bherm.getD true)) :
+    (historyStep none st Aherm Bherm true).2.2 = true := by
+  simp [historyStep, Ne.symm hchg]
+
+/-- non-vacuity: symmetric → non-symmetric → Hermitian on one sparse module: `eigsh`, `eigs`, `eigsh`, a new solver each time -/
+example : historyRun none (HistState.init none) [(true, none, true), (false, none, true), (true, some true, true)] =
+    [(Lib.eigsh, true), (Lib.eigs, true), (Lib.eigsh, true)] := by decide
+
 /-! ## sensitivities (for C01) -/
 
 /-
@@ -230,6 +255,44 @@ theorem eig_dense_adjoint_partial {n : ℕ} (h2 : (2 : α) ≠ 0)
   rw [dotProduct_comm (B *ᵥ q) nu]
   field_simp
   ring
+
+/-
+Full statement (not proved): as above. Proved: `_dense_sens` for ALL modes — the sum over the modes with the code's skip
+rule (a mode whose eigenvector seed column and eigenvalue seed are both zero is skipped and contributes nothing), `None`
+seeds read as zero, `B = I` when absent — for complex data. Missing: the implicit-function theorem and the `.real` rules.
+-/
+/-- Lee's adjoint for the whole module: for every family of per-mode tangents of the eigen-equations and normalisations,
+`Σᵢ (dQ[:, i]·dqᵢ + dW[i] dλᵢ) = ⟪g_A, dA⟫ + ⟪g_B, dB⟫` with `(g_A, g_B) = _dense_sens(A, B, dW, dQ)`. -/
+theorem eig_dense_adjoint_sum_partial [DecidableEq α] {n m : ℕ} (h2 : (2 : α) ≠ 0) (R : RealPart α)
+    (linsolve : Matrix (Fin n ⊕ Unit) (Fin n ⊕ Unit) α → (Fin n ⊕ Unit → α) → (Fin n ⊕ Unit → α))
+    (A : Matrix (Fin n) (Fin n) α) (B : Option (Matrix (Fin n) (Fin n) α))
+    (W : Fin m → α) (Q : Matrix (Fin n) (Fin m) α)
+    (dW : Option (Fin m → α)) (dQ : Option (Matrix (Fin n) (Fin m) α))
+    (hsolve : ∀ i, ¬((∀ r, dQ.getD 0 r i = 0) ∧ dW.getD 0 i = 0) →
+      leeMatrix A (B.getD 1) (W i) (fun r => Q r i) *ᵥ
+          linsolve (leeMatrix A (B.getD 1) (W i) (fun r => Q r i)) (Sum.elim (fun r => dQ.getD 0 r i) fun _ => dW.getD 0 i)
+        = Sum.elim (fun r => dQ.getD 0 r i) fun _ => dW.getD 0 i)
+    (dA dB : Matrix (Fin n) (Fin n) α) (dq : Fin m → Fin n → α) (dlam : Fin m → α)
+    (hlin : ∀ i, dA *ᵥ (fun r => Q r i) + A *ᵥ dq i - dlam i • (B.getD 1 *ᵥ fun r => Q r i)
+      - W i • (dB *ᵥ fun r => Q r i) - W i • (B.getD 1 *ᵥ dq i) = 0)
+    (hnorm : ∀ i, dq i ⬝ᵥ (B.getD 1 *ᵥ fun r => Q r i) + (fun r => Q r i) ⬝ᵥ (dB *ᵥ fun r => Q r i)
+      + (fun r => Q r i) ⬝ᵥ (B.getD 1 *ᵥ dq i) = 0) :
+    ∑ i, ((fun r => dQ.getD 0 r i) ⬝ᵥ dq i + dW.getD 0 i * dlam i) =
+      pair (denseSens R true true linsolve A B W Q dW dQ).1 dA + pair (denseSens R true true linsolve A B W Q dW dQ).2 dB := by
+  simp only [denseSens, if_true]
+  rw [pair_sum_left, pair_sum_left, ← Finset.sum_add_distrib]
+  refine Finset.sum_congr rfl fun i _ => ?_
+  by_cases hs : (∀ r, dQ.getD 0 r i = 0) ∧ dW.getD 0 i = 0
+  · have hz : (fun r => dQ.getD 0 r i) = 0 := funext hs.1
+    simp [hs.1, hs.2, pair_zero_left]
+  · have hskip : (decide (∀ r, dQ.getD 0 r i = 0) && decide (dW.getD 0 i = 0)) = false := by
+      rw [Bool.and_eq_false_iff]
+      by_cases h1 : ∀ r, dQ.getD 0 r i = 0
+      · right; simpa using fun h => hs ⟨h1, h⟩
+      · left; simpa using h1
+    simp only [hskip, Bool.false_eq_true, if_false]
+    exact eig_dense_adjoint_partial h2 linsolve A (B.getD 1) (W i) (fun r => Q r i) (fun r => dQ.getD 0 r i) (dW.getD 0 i)
+      (hsolve i hs) dA dB (dq i) (dlam i) (hlin i) (hnorm i)
 
 /-- non-vacuity: a tangent of the 1×1 problem `a q = λ b q`, `q b q = 1` at `a = 2, b = 1, λ = 2, q = 1` -/
 example : ∃ (dA dB : Matrix (Fin 1) (Fin 1) ℚ) (dq : Fin 1 → ℚ) (dlam : ℚ),
